@@ -116,8 +116,15 @@ def _count_of(b, f, name):
 def _bind_roles(ctx, prog):
     """Roles of /repo locals the structural facts of R1 talk about, found by what defines / uses them (a pure rename in /repo changes nothing for the rules).
     Runs before any Origin of these bodies exists."""
-    pr = prog.find('FlatSearchScratch::prepare') if hasattr(prog, 'find') else None
-    return pr
+    def _b(ident):
+        try:
+            return prog.body(ident)
+        except KeyError:
+            return None
+    # the bitset length prepare() asks for: the word count derived from node_count that is handed to Vec::resize
+    util.bind_role(_b('FlatSearchScratch::prepare'), 'required_words', type_rx=r'^usize$', origin_rx=r'arg:node_count\b', full=True, used_as=(r'Vec::resize$', 1))
+    # node_start's widened copy of its id parameter (`dense_id as usize`)
+    util.bind_role(_b('PackedLevel0::node_start'), 'dense', type_rx=r'^usize$', origin_rx=r'^arg:dense_id$', full=True)
 
 
 def r1(ctx, prog):
@@ -126,6 +133,7 @@ def r1(ctx, prog):
                        'valid ids, `.0` of greedy_descent_layer with a valid start); every optimistic summary is discharged: all heap / container pushes push '
                        'valid ids and all callers pass valid ids for the parameters that need it; neighbour indexes range over 0..count_unchecked(same id); '
                        'mark_if_unvisited_unchecked runs after scratch.prepare(node count, _)')
+    _bind_roles(ctx, prog)
     cfg = idflow.Config(N_RX, UNCHECKED, CHECKED, heaps_rx=r'FlatSearchScratch\.(?:candidates|results)\)', heap_push='SearchHeap::push', heap_pop='SearchHeap::pop',
                         prepare='FlatSearchScratch::prepare', ret_summaries=[('FlatGraph::greedy_descent_layer', [2])])
     eng = idflow.Engine(prog, cfg, r'ann_backend')
@@ -192,11 +200,14 @@ def r1(ctx, prog):
                 ixf = f.rf(c.args[2])
                 ok = False
                 why = 'unrecognised index idiom'
-                if ixv == 'var:idx':
-                    nc = b.var_local('neighbor_count')
-                    nco = flow.render(f.ov.of_local(nc[0])) if len(nc) == 1 else ''
+                m_ix = re.match(r'^var:(\w+)$', ixv)
+                if m_ix:
+                    # the index is a loop variable: it ranges over 0..N where N is a single-assignment variable holding count_unchecked(same id). The two variables
+                    # are identified by this relation (the index derives from N through the loop iterator), not by what they are called in the source
+                    ncs = [nco_ for nco_ in (_count_of(b, f, n_) for n_ in _derives_from(b, m_ix.group(1))) if nco_]
+                    nco = ncs[0] if len(ncs) == 1 else ''
                     same = bool(re.match(r'^PackedLevel0::count_unchecked\(.*, %s\)$' % re.escape(idv), nco))
-                    rng = bool(re.match(r'^range::next\(range::Range::Range\{0, PackedLevel0::count_unchecked\(', ixf)) and util.var_chain_reaches(b, 'idx', 'neighbor_count')
+                    rng = bool(re.match(r'^range::next\(range::Range::Range\{0, PackedLevel0::count_unchecked\(', ixf)) and len(ncs) == 1
                     ok = same and rng
                     why = 'idx ranges over 0..neighbor_count (%s), neighbor_count = %s' % (rng, nco[:70])
                 else:
@@ -211,10 +222,12 @@ def r1(ctx, prog):
                          'neighbor_unchecked(%s, %s) at %s: %s' % (idv[:40], ixv, c.loc, why))
             if c.callee.endswith('prefetch_level0_neighbor_lookahead') and len(c.args) >= 4:
                 idv = f.rv(c.args[1])
-                nc = b.var_local('neighbor_count')
-                nco = flow.render(f.ov.of_local(nc[0])) if len(nc) == 1 else ''
-                ok = f.rv(c.args[2]) == 'var:neighbor_count' and bool(re.match(r'^PackedLevel0::count_unchecked\(.*, %s\)$' % re.escape(idv), nco)) and f.rv(c.args[3]) == 'var:idx' \
-                    and util.var_chain_reaches(b, 'idx', 'neighbor_count')
+                # (count, index) are whatever variables are passed: the count is a single-assignment variable holding count_unchecked(same id) and the index
+                # derives from it through the loop iterator — compared with each other, not with source names
+                m_nc, m_ix = re.match(r'^var:(\w+)$', f.rv(c.args[2])), re.match(r'^var:(\w+)$', f.rv(c.args[3]))
+                nco = _count_of(b, f, m_nc.group(1)) if m_nc else ''
+                ok = bool(m_nc) and bool(m_ix) and bool(re.match(r'^PackedLevel0::count_unchecked\(.*, %s\)$' % re.escape(idv), nco)) \
+                    and m_nc.group(1) in _derives_from(b, m_ix.group(1))
                 ctx.inst('C17.R1', fn, 'prefetch gets (id, count(id), idx in 0..count) of one node #%d' % _count(ctx, 'C17.R1', '%s | prefetch gets' % fn), ok,
                          'prefetch(%s, %s, %s); neighbor_count = %s' % (idv[:40], f.rv(c.args[2]), f.rv(c.args[3]), nco[:60]))
             if c.callee.endswith('mark_if_unvisited_unchecked'):
@@ -252,13 +265,15 @@ def r1(ctx, prog):
     ns = ctx.body('C17.R1', 'PackedLevel0::node_start')
     if ns is not None:
         ov = flow.Origin(ns, stop_at_vars=True)
-        ge = [(i, tg) for i, tg, p in _preds(ns, ov) if re.match(r'^!cmp\[\+ PackedLevel0::len\(arg:self\) - var:dense <= 0\]$|^cmp\[\+ PackedLevel0::len\(arg:self\) - var:dense >= 1\]$', p)]
+        dl = ns.var_local('dense')    # role bound in _bind_roles
+        # the guard compares the packed length with the widened copy of the id — or, written without the temporary, with the id parameter itself
+        idt = 'var:dense' if dl else 'arg:dense_id'
+        ge = [(i, tg) for i, tg, p in _preds(ns, ov) if re.match(r'^!cmp\[\+ PackedLevel0::len\(arg:self\) - %s <= 0\]$|^cmp\[\+ PackedLevel0::len\(arg:self\) - %s >= 1\]$' % (idt, idt), p)]
         some = [i for i, blk in enumerate(ns.blocks) for st in blk['s'] if st.get('rv', {}).get('k') == 'agg' and st['rv'].get('variant') == 'Some']
         r = ns.reach([0], avoid_edges=ge)
-        dl = ns.var_local('dense')
-        dense_is_id = len(dl) == 1 and re.match(r'^(cast\()?arg:dense_id\b', flow.render(flow.Origin(ns).of_local(dl[0]))) is not None
+        dense_is_id = not dl or (len(dl) == 1 and re.match(r'^(cast\()?arg:dense_id\b', flow.render(flow.Origin(ns).of_local(dl[0]))) is not None)
         ctx.inst('C17.R1', _fn(ns), 'node_start yields Some only for ids below the packed length', bool(ge) and bool(some) and all(s not in r for s in some) and dense_is_id,
-                 'guard edges %d; Some built in %s; dense = %s' % (len(ge), some, flow.render(flow.Origin(ns).of_local(dl[0]))[:40] if dl else '?'))
+                 'guard edges %d; Some built in %s; dense = %s' % (len(ge), some, flow.render(flow.Origin(ns).of_local(dl[0]))[:40] if dl else 'arg:dense_id (no temporary)'))
     va = ctx.body('C17.R1', 'PackedLevel0::vector_at')
     if va is not None:
         frp = [c for c in va.calls if c.callee and c.callee.endswith('from_raw_parts')]
@@ -463,7 +478,9 @@ def r2(ctx, prog):
                 skip = [(i, tg) for i, tg, p in preds if re.match(r'^!bool\[arg:%s\]$' % fname, p)]
                 chk = sorted(set(i for i, _ in dimne))
                 of = flow.Origin(b)
-                from_data = any(re.search(r'::next\(.*slice::iter\(arg:data\)', flow.render(of.of_local(l))) for l in b.var_local('embedding'))
+                # the element whose length is compared (whatever the loop variable is called) comes from the iteration over `data`
+                cmp_vars = sorted(set(v_ for i, tg, p in preds if re.match('^!' + rx, p) for v_ in re.findall(r'slice::len\(var:(\w+)\)', p))) or ['embedding']
+                from_data = all(any(re.search(r'::next\(.*slice::iter\(arg:data\)', flow.render(of.of_local(l))) for l in b.var_local(v_)) for v_ in cmp_vars)
                 # loop head: the next() over `data` that dominates the check; each iteration passes the check before coming back to it
                 heads = [h for h in b.calls if h.callee and re.search(r'Iterator>?::next$', h.callee) and 'slice::iter(arg:data)' in flow.render(of.of_operand(h.args[0])) and all(b.dominates(h.bb, x) for x in chk)]
                 each = bool(heads) and all(h.bb not in b.reach([h.to], avoid_blocks=chk) for h in heads)
